@@ -16,7 +16,7 @@ import (
 func init() {
 	reg.Register(&reg.Spec{ID: "C38",
 		Imports: "From verif Require Import lib.Base model.C38.",
-		Judge:   "C38.judge", Shard: 400, Run: run})
+		Judge:   "C38.judge", Shard: 250, Run: run})
 }
 
 type specD struct {
